@@ -49,6 +49,8 @@ Record variant := Var {
 }.
 Definition faithful := Var false false false false.
 Definition repaired := Var true true true true.
+(* /repo after the integrator's repairs of F-C16a (replayed rename) and F-C19a (ResetFlood time); F-C15a and F-C16b remain *)
+Definition current := Var true false false true.
 
 Record st := St {
   ents : list row; eseq : Z;
